@@ -1074,6 +1074,12 @@ func (e *Enc) binop(op token.Token, a, b Term, opType types.Type, at ssa.Instruc
 	case token.SUB:
 		return e.wrapArith(App(SInt, "-", a, b), opType)
 	case token.MUL:
+		// products of machine integers overflow easily: the result must fit (OVF obligation) unless one
+		// factor is a small literal
+		if lo, hi, ok := intRange(opType); ok && !isUnsigned(opType) && !(isSmallLit(a) || isSmallLit(b)) {
+			p := App(SInt, "*", a, b)
+			e.oblige("OVF", "", nil, And(App(SBool, "<=", IntLitS(lo), p), App(SBool, "<=", p, IntLitS(hi))), "signed integer multiplication must not overflow", at.Pos())
+		}
 		return e.wrapArith(App(SInt, "*", a, b), opType)
 	case token.QUO:
 		e.oblige("SAFE.div", "", nil, Not(Eq(b, IntLit(0))), "integer divide by zero", at.Pos())
@@ -1526,4 +1532,9 @@ func intWitness(t Term) (Term, bool) {
 		return Term{strings.TrimSuffix(t.S, ".0"), SInt}, true
 	}
 	return Term{}, false
+}
+
+func isSmallLit(t Term) bool {
+	s := strings.TrimSuffix(strings.TrimPrefix(t.S, "(- "), ")")
+	return isDigits(s) && len(s) <= 4
 }
